@@ -237,7 +237,13 @@ fn receivers() -> Vec<Value> {
 /// scalar value of that lead byte, "y") — 4 characters, 6 to 10 bytes each. They meet every
 /// built-in with no kwargs and the string built-ins with receiver-specific kwargs (`focus_cells`).
 fn lead_byte_receivers() -> Vec<Value> {
-    pools::utf8_lead_byte_strings().iter().map(|s| Value::from(s.as_str())).collect()
+    let mut v: Vec<Value> = pools::utf8_lead_byte_strings().iter().map(|s| Value::from(s.as_str())).collect();
+    // mixed line endings (CR, LF, CRLF in every adjacency) and runs of blanks/tabs around them: they go
+    // through every string built-in on the model side as well (newlines_to_br, indent, trim*, wordcount, title ...)
+    for s in ["a\r\n\nb", "\r\n\n\n", "\r\r\n", "\n\r\n\r", "x\r\n\r\n\ny\r\n", "\r", "a\rb\n\nc", "\n\n", " \r\n \n\t\r x"] {
+        v.push(Value::from(s));
+    }
+    v
 }
 
 type Shape = Vec<(&'static str, Value)>;
